@@ -1186,12 +1186,27 @@ fn known_inputs() -> Vec<(String, String)> {
         ("r3:recursive-index-macro", "# Experimental!\nF! ← |1 F!^0\nF!(+1) 1".to_string()),
         ("r3:un-json-deep", "# Experimental!\n°json⊂⊂ ↯1e5@[ \"1\" ↯1e5@]".to_string()),
         ("r3:un-json5-deep", "# Experimental!\n°json $\"_1_\" ↯3e4@[ ↯3e4@]".to_string()),
-        // still open when round 3 landed
-        ("open:anti-drop-huge", "⌝↘1e10 ↯3_3⇡9".to_string()),
-        ("open:bare-bangs", "!".repeat(40000)),
-        ("open:undo-keep-empty-rows", "⍜(▽1_1_7)⇌↯2_0_2 0".to_string()),
-        ("open:undo-select-rank-underflow", "⬚0⍜(⊏¯4)⇌↯3_0 0".to_string()),
-        ("open:range-zero-dim-overflow", "⇡1e10_4e10_0".to_string()),
+        // repaired in round 4: must stay quiet
+        ("r4:anti-drop-huge", "⌝↘1e10 ↯3_3⇡9\n⌝↘ 1e10 [1 2 3 4 5]".to_string()),
+        ("r4:bare-bangs", "!".repeat(40000)),
+        ("r4:bangs-two-lines", format!("{}\nF{}", "!".repeat(60000), "!".repeat(60000))),
+        ("r4:undo-keep-empty-rows", "⍜(▽1_1_7)⇌↯2_0_2 0".to_string()),
+        ("r4:undo-select-rank-underflow", "⬚0⍜(⊏¯4)⇌↯3_0 0".to_string()),
+        ("r4:range-zero-dim-overflow", "⇡1e10_4e10_0".to_string()),
+        ("r4:reshape-empty-huge", "↯ 1e10 []\n⍜(↯ 1e10)⇌ []".to_string()),
+        ("r4:keep-scalar-empty-rows", "▽ 1e10 ↯3_0 0\n⬚∞⍜(▽ 1e16)⇌ ↯3_0 0".to_string()),
+        ("r4:rerank-huge", "☇ 1e10 [1 2 3 4 5]".to_string()),
+        ("r4:rerank-huge2", "☇1e18 ⇡5".to_string()),
+        ("r4:rerank-under-huge", "⍜(☇ 1e10)⇌ [1 2 3 4 5]".to_string()),
+        ("r4:stencil-huge", "⬚0⧈□ 1e10 [1 2 3 4 5]\n⬚∞⧈□ 1e16 ↯3_0 0".to_string()),
+        // found by the thorough tier after round 4, still open
+        ("open:tuples-general-huge", "⧅(∘≤)1e10 4".to_string()),
+        ("open:join-fill-range-huge", "⬚0⊂ ⇡1e10_0 ↯3_0 0".to_string()),
+        ("open:anti-pick-overflow", "⬚0⌝⊡1e19 ↯3_0 0".to_string()),
+        ("open:reshape-inf-overflow", "↯1e10_1e10_∞ 9".to_string()),
+        ("open:reshape-inf-overflow2", "↯1e10_∞_1e10 []".to_string()),
+        ("open:table-sided-sub", "⊞₋₁(°+) 1 2".to_string()),
+        ("open:constant-bad-apple", "Bad".to_string()),
     ];
     v.into_iter().map(|(n, s)| (n.to_string(), s)).collect()
 }
@@ -1755,6 +1770,33 @@ fn tie() {
         }
         writeln!(src, "M{}!+ 1 2", to_alpha(k - 1)).unwrap();
         cases.push(("macro".into(), format!("{{\"k\":{k}}}"), src, ST_C_LAZY, "64"));
+    }
+    // (7) range: dims ++ [rank] validated with 8-byte elements, also with a zero dimension (UIUA_MAX_MB = 8)
+    let range_dims: Vec<Vec<u64>> = vec![
+        vec![3, 0, 2],
+        vec![10000000000, 40000000000, 0],
+        vec![0, 4294967296, 1073741824],
+        vec![0, 4294967296, 536870912],
+        vec![512, 1024],
+        vec![512, 1025],
+        vec![1024, 1024],
+        vec![2, 3, 4],
+        vec![0, 0],
+        vec![300, 300, 6],
+        vec![300, 301, 6],
+        vec![4294967296, 4294967296],
+        vec![0, 3037000499, 1013904223],
+        vec![0, 3037000500, 1013904300],
+    ];
+    for d in &range_dims {
+        let dims: Vec<String> = d.iter().map(|x| x.to_string()).collect();
+        cases.push(("range".into(), format!("{{\"dims\":[{}],\"limit\":8388608}}", dims.join(",")), format!("/×△ ⇡{}", dims.join("_")), ST_RUN, "8"));
+    }
+    // (8) rerank: ranks around the limit of 99 dimensions, on arrays of 1 and 3 axes
+    for (len, arr) in [(1u64, "[1 2 3]"), (3, "↯2_2_2 0")] {
+        for rk in [0u64, 1, 2, 3, 50, 97, 98, 99, 100, 1000, 10000000000] {
+            cases.push(("rerank".into(), format!("{{\"rank\":{rk},\"len\":{len}}}"), format!("⧻△ ☇ {} {arr}", if rk >= 1000000 { "1e10".to_string() } else { rk.to_string() }), ST_RUN, "64"));
+        }
     }
     // (6) regression: the witnesses of size_guard_refuted_pre (an empty shape whose row length overflows usize) must be refused now
     cases.push(("regression".into(), "{\"es\":1,\"dims\":[0,10000000000,10000000000],\"limit\":67108864}".into(), "⬚0↙3 ↯0_1e10_1e10 0".into(), ST_RUN, "64"));
